@@ -243,6 +243,13 @@ func (ctx *Context) fixStackMerge(pos []int) {
 			in[j] -= delta
 			j++
 		}
+		// Merged glyphs behind the last input position (but before EndPos)
+		// are removed from the sequence, too.
+		for ; i < len(pos); i++ {
+			if i > 0 {
+				delta++
+			}
+		}
 
 		// We need to decide whether or not to add the new glyphs to the input
 		// glyph sequence of this action.  The behaviour is not specified in
